@@ -270,8 +270,10 @@ def extra(ctx, cov):
     cov["c02_word_model_branches"] = dict(sorted(BR.items()))
     return []
 
-THEOREMS = [
-]
+THEOREMS = ["Mpir.DivWord." + t for t in [
+    "invert_limb_spec", "udiv_qrnnd_preinv_spec", "modlimb_invert_spec", "divrem_euclidean_qr_1_val",
+    "divrem_1_val_partial", "mod_1_val", "preinv_mod_1_val", "divexact_1_val",
+]]
 
 if __name__ == "__main__":
     import random
